@@ -84,7 +84,12 @@ def replay(prop, path):
     with open(path) as f:
         v = json.load(f)
     fn = mod.CASES[v["case"]]
-    out = fn(core.unjson(v["params"]))
+    params = core.unjson(v["params"])
+    if isinstance(params, dict) and params.pop("_loglevel", None) == "debug":
+        with core.loggers_at_debug():
+            out = fn(params)
+    else:
+        out = fn(params)
     print(f"replay {prop} case={v['case']} params={json.dumps(v['params'])[:600]}")
     if not out:
         print("no violation on replay")
